@@ -878,7 +878,7 @@ func famCli(tr *Trace, id *int, scratch, bin, behaviours string) int {
 			}
 		}
 		run(f, "devfull", "devfull", true, nil)
-		for _, tk := range []string{"file", "dir", "empty"} {
+		for _, tk := range []string{"file", "dir", "empty", "existing_larger", "dir_dotted"} { // (also a rebuild over the same path: nothing unsigned stays there)
 			run(f, tk, "missing_key", true, nil)
 		}
 	}
